@@ -136,6 +136,7 @@ def main(argv=None):
                         sub.teardown()
         else:
             sub = find_sub(mod, args.sub)
+            sub.prop = args.prop
             if sub.setup:
                 sub.setup()
             try:
